@@ -316,7 +316,7 @@ Definition compare_range (gcmp : string -> string -> Z) : Prop :=
 
 Lemma gen_isRequired_equiv gcmp : compare_agrees gcmp -> compare_range gcmp ->
   forall v min, sv_valid v = true ->
-    match min with AStr m => sv_valid m = true | AAbsent => True | _ => False end ->
+    match min with VerifyCore.AStr m => sv_valid m = true | AAbsent => True | _ => False end ->
     gen_verifier_isRequiredVerificationPluginVer gcmp v (minver_string min) = ver_ge v min.
 Proof.
   intros HA HR v min V M. unfold gen_verifier_isRequiredVerificationPluginVer, ver_ge.
@@ -484,3 +484,357 @@ Proof.
 Qed.
 
 End Rev.
+
+(* ====================================================================== *)
+(* 5. the extended attributes: plugin headers and what is left for the    *)
+(*    plugin (verifier/helpers.go)                                        *)
+(* ====================================================================== *)
+
+(* How the model's scenario reads the extended attributes the code sees
+   (SignerInfo.SignedAttributes.ExtendedAttributes, keys and values of type any). *)
+
+(* SignerInfo.ExtendedAttribute(key): the first attribute whose key is the Go string [key] *)
+Fixpoint find_attr (key : string) (l : list signature_Attribute) : option signature_Attribute :=
+  match l with
+  | [] => None
+  | a :: l' => if anyv_eqb (Attribute_Key a) (GoLib.AStr "string" key) then Some a else find_attr key l'
+  end.
+
+(* the state of a plugin header: [attr] of VerifyCore *)
+Definition attr_state (key : string) (l : list signature_Attribute) : attr :=
+  match find_attr key l with
+  | None => AAbsent
+  | Some a =>
+      if Attribute_Critical a then
+        match Attribute_Value a with
+        | GoLib.AStr ty s => if String.eqb ty "string" then VerifyCore.AStr s else ANotString
+        | _ => ANotString
+        end
+      else ANotCritical
+  end.
+
+Definition hdr_plugin := "io.cncf.notary.verificationPlugin".
+Definition hdr_minver := "io.cncf.notary.verificationPluginMinVersion".
+
+(* the key of an attribute when it is a Go string *)
+Definition str_key (a : signature_Attribute) : option string :=
+  match Attribute_Key a with
+  | GoLib.AStr ty k => if String.eqb ty "string" then Some k else None
+  | _ => None
+  end.
+
+(* [s_other]: the attributes with a string key other than the two plugin headers, (key, critical) *)
+Definition other_of (l : list signature_Attribute) : list (string * bool) :=
+  flat_map (fun a => match str_key a with
+                     | Some k => if mem_str k [hdr_plugin; hdr_minver] then [] else [(k, Attribute_Critical a)]
+                     | None => []
+                     end) l.
+
+(* [s_nonstring_crit] *)
+Definition nonstring_crit_of (l : list signature_Attribute) : bool :=
+  existsb (fun a => match str_key a with None => Attribute_Critical a | Some _ => false end) l.
+
+(* how processSignature reads the (value, error) pair of the three extraction functions:
+   err == errExtendedAttributeNotExist / another error / nil *)
+Inductive xres := XAbsent | XErr | XVal (s : string).
+Definition xres_of (r : string * option GoLib.err) : xres :=
+  match snd r with
+  | None => XVal (fst r)
+  | Some e => if err_same (Some e) verifier_errExtendedAttributeNotExist then XAbsent else XErr
+  end.
+
+(* the model's decisions on a header *)
+Definition extract_res (a : attr) : xres :=
+  match a with AAbsent => XAbsent | ANotCritical | ANotString => XErr | VerifyCore.AStr s => XVal s end.
+Definition plugin_res (a : attr) : xres :=
+  match a with VerifyCore.AStr n => if blank n then XErr else XVal n | _ => extract_res a end.
+Definition minver_res (a : attr) : xres :=
+  match a with VerifyCore.AStr v => if blank v || negb (sv_valid v) then XErr else XVal v | _ => extract_res a end.
+
+(* the model's copy of strings.TrimSpace is GoLib's (the one the generated code uses) *)
+Lemma trim_space_is_golib s : VerifyCore.trim_space s = GoLib.str_trim_space s.
+Proof. reflexivity. Qed.
+Lemma blank_golib s : blank s = String.eqb (str_trim_space s) "".
+Proof. reflexivity. Qed.
+
+Section Attrs.
+Variable C : Type.
+Notation ext_attrs si := (SignedAttributes_ExtendedAttributes (SignerInfo_SignedAttributes C si)).
+
+Lemma ext_loop key l :
+  gen_signature_SignerInfo_ExtendedAttribute_loop1 key l
+  = match find_attr key l with
+    | Some a => (a, None)
+    | None => (fst (gen_signature_SignerInfo_ExtendedAttribute_loop1 key []),
+               snd (gen_signature_SignerInfo_ExtendedAttribute_loop1 key []))
+    end.
+Proof.
+  induction l as [|a l IH]; [reflexivity|].
+  cbn [gen_signature_SignerInfo_ExtendedAttribute_loop1 find_attr]. cbv zeta.
+  destruct (anyv_eqb (Attribute_Key a) (GoLib.AStr "string" key)); [reflexivity|exact IH].
+Qed.
+
+Lemma ext_notfound key : snd (gen_signature_SignerInfo_ExtendedAttribute_loop1 key []) <> None.
+Proof. cbn. discriminate. Qed.
+
+Lemma any_str_value v :
+  any_str "string" v
+  = match v with
+    | GoLib.AStr ty s => if String.eqb ty "string" then (s, true) else ("", false)
+    | _ => ("", false)
+    end.
+Proof. destruct v; reflexivity. Qed.
+
+Lemma gen_extract_equiv si key :
+  xres_of (gen_verifier_extractCriticalStringExtendedAttribute C si key) = extract_res (attr_state key (ext_attrs si))
+  /\ (snd (gen_verifier_extractCriticalStringExtendedAttribute C si key) <> None ->
+      fst (gen_verifier_extractCriticalStringExtendedAttribute C si key) = "").
+Proof.
+  unfold gen_verifier_extractCriticalStringExtendedAttribute, gen_signature_SignerInfo_ExtendedAttribute, attr_state.
+  rewrite ext_loop. pose proof (ext_notfound key) as NF.
+  destruct (find_attr key (ext_attrs si)) as [a|].
+  - cbn [is_none negb]. destruct (Attribute_Critical a); cbn [negb].
+    + rewrite any_str_value. destruct (Attribute_Value a) as [|ty s| | | |]; try (split; [reflexivity|reflexivity]).
+      destruct (String.eqb ty "string"); split; try reflexivity. cbn. intros H. now elim H.
+    + split; reflexivity.
+  - destruct (snd (gen_signature_SignerInfo_ExtendedAttribute_loop1 key [])) as [e|]; [|now elim NF].
+    cbn [is_none negb]. split; reflexivity.
+Qed.
+
+(* getVerificationPlugin = the head of VerifyCore.discover *)
+Lemma gen_getVerificationPlugin_equiv si :
+  xres_of (gen_verifier_getVerificationPlugin C si) = plugin_res (attr_state hdr_plugin (ext_attrs si))
+  /\ (snd (gen_verifier_getVerificationPlugin C si) <> None -> fst (gen_verifier_getVerificationPlugin C si) = "").
+Proof.
+  unfold gen_verifier_getVerificationPlugin.
+  destruct (gen_extract_equiv si hdr_plugin) as [H1 H2]. fold hdr_plugin.
+  destruct (gen_verifier_extractCriticalStringExtendedAttribute C si hdr_plugin) as [name e].
+  cbn [fst snd] in H2. unfold xres_of in *. cbn [fst snd] in *.
+  destruct e as [e|]; cbn [is_none negb].
+  - split; [|reflexivity]. cbn [snd].
+    destruct (attr_state hdr_plugin (ext_attrs si)); cbn [extract_res plugin_res] in *;
+      destruct (err_same (Some e) verifier_errExtendedAttributeNotExist); try discriminate; reflexivity.
+  - destruct (attr_state hdr_plugin (ext_attrs si)) as [| | |n]; cbn [extract_res] in H1; try discriminate.
+    injection H1 as ->. cbn [plugin_res]. rewrite blank_golib.
+    destruct (String.eqb (str_trim_space n) ""); split; try reflexivity. cbn. intros H. now elim H.
+Qed.
+
+(* getVerificationPluginMinVersion = VerifyCore.minver_error (validity computed, C02_Versions) *)
+Lemma gen_getVerificationPluginMinVersion_equiv si :
+  xres_of (gen_verifier_getVerificationPluginMinVersion C si) = minver_res (attr_state hdr_minver (ext_attrs si))
+  /\ (snd (gen_verifier_getVerificationPluginMinVersion C si) <> None -> fst (gen_verifier_getVerificationPluginMinVersion C si) = "").
+Proof.
+  unfold gen_verifier_getVerificationPluginMinVersion.
+  destruct (gen_extract_equiv si hdr_minver) as [H1 H2]. fold hdr_minver.
+  destruct (gen_verifier_extractCriticalStringExtendedAttribute C si hdr_minver) as [v e].
+  cbn [fst snd] in H2. unfold xres_of in *. cbn [fst snd] in *.
+  destruct e as [e|]; cbn [is_none negb].
+  - split; [|reflexivity]. cbn [snd].
+    destruct (attr_state hdr_minver (ext_attrs si)); cbn [extract_res minver_res] in *;
+      destruct (err_same (Some e) verifier_errExtendedAttributeNotExist); try discriminate; reflexivity.
+  - destruct (attr_state hdr_minver (ext_attrs si)) as [| | |n]; cbn [extract_res] in H1; try discriminate.
+    injection H1 as ->. cbn [minver_res]. rewrite blank_golib, gen_IsValid_equiv.
+    destruct (String.eqb (str_trim_space n) ""); cbn [orb]; [split; [reflexivity|reflexivity]|].
+    destruct (sv_valid n); cbn [negb]; split; try reflexivity. cbn. intros H. now elim H.
+Qed.
+
+Lemma contains_loop v l : gen_slices_Contains_string_loop1 v l = mem_str v l.
+Proof.
+  induction l as [|a l IH]; [reflexivity|]. cbn [gen_slices_Contains_string_loop1 mem_str existsb]. cbv zeta.
+  destruct (String.eqb v a); [reflexivity|exact IH].
+Qed.
+
+Lemma gen_Contains_equiv l v : gen_slices_Contains_string l v = mem_str v l.
+Proof. apply contains_loop. Qed.
+
+Lemma headers_pinned : verifier_VerificationPluginHeaders = [hdr_plugin; hdr_minver].
+Proof. reflexivity. Qed.
+
+(* (key, critical) of an attribute handed to the plugin *)
+Definition attr_kc (a : signature_Attribute) : string * bool :=
+  (fst (any_str "string" (Attribute_Key a)), Attribute_Critical a).
+
+Lemma nonplugin_loop l : forall acc,
+  gen_verifier_getNonPluginExtendedCriticalAttributes_loop1 l acc
+  = acc ++ filter (fun a => match str_key a with
+                            | Some k => negb (mem_str k [hdr_plugin; hdr_minver])
+                            | None => false
+                            end) l.
+Proof.
+  induction l as [|a l IH]; intros acc; [cbn; now rewrite app_nil_r|].
+  cbn [gen_verifier_getNonPluginExtendedCriticalAttributes_loop1 filter]. cbv zeta.
+  rewrite any_str_value. unfold str_key at 1.
+  destruct (Attribute_Key a) as [|ty k| | | |]; cbn [andb]; try apply IH.
+  destruct (String.eqb ty "string"); cbn [andb]; [|apply IH].
+  rewrite gen_Contains_equiv, headers_pinned.
+  destruct (mem_str k [hdr_plugin; hdr_minver]); cbn [negb]; [apply IH|].
+  rewrite IH, <- app_assoc. reflexivity.
+Qed.
+
+(* getNonPluginExtendedCriticalAttributes = [other_keys] / [s_other] of the scenario *)
+Lemma gen_getNonPlugin_equiv si :
+  map attr_kc (gen_verifier_getNonPluginExtendedCriticalAttributes C si) = other_of (ext_attrs si)
+  /\ Forall (fun a => exists k, Attribute_Key a = GoLib.AStr "string" k)
+            (gen_verifier_getNonPluginExtendedCriticalAttributes C si).
+Proof.
+  unfold gen_verifier_getNonPluginExtendedCriticalAttributes. cbv zeta. rewrite nonplugin_loop. cbn [app].
+  generalize (ext_attrs si). intros l. split.
+  - induction l as [|a l IH]; [reflexivity|]. cbn [filter other_of flat_map]. fold (other_of l).
+    destruct (str_key a) as [k|] eqn:SK; [|exact IH].
+    destruct (mem_str k [hdr_plugin; hdr_minver]); cbn [negb app]; [exact IH|].
+    cbn [map]. rewrite IH. f_equal. unfold attr_kc. unfold str_key in SK.
+    destruct (Attribute_Key a) as [|ty k'| | | |]; try discriminate. cbn [any_str].
+    destruct (String.eqb ty "string"); [|discriminate]. injection SK as ->. reflexivity.
+  - apply Forall_forall. intros a Ha. apply filter_In in Ha. destruct Ha as [_ Ha].
+    unfold str_key in Ha. destruct (Attribute_Key a) as [|ty k| | | |]; try discriminate.
+    destruct (String.eqb ty "string") eqn:T; [|discriminate]. apply String.eqb_eq in T. subst ty. now exists k.
+Qed.
+
+End Attrs.
+
+(* the attributes a plugin reports as processed: the Go strings among them *)
+Definition strs_of (l : list anyv) : list string :=
+  flat_map (fun x => match x with GoLib.AStr ty s => if String.eqb ty "string" then [s] else [] | _ => [] end) l.
+
+(* slices.ContainsAny(response.ProcessedAttributes, attr.Key) for a string key: total, and
+   = mem_str on the strings (the test of [crit_processed]) *)
+Lemma containsany_loop k l :
+  gen_slices_ContainsAny_loop1 (GoLib.AStr "string" k) l = Some (mem_str k (strs_of l)).
+Proof.
+  induction l as [|x l IH]; [reflexivity|].
+  cbn [gen_slices_ContainsAny_loop1 strs_of flat_map]. cbv zeta. fold (strs_of l).
+  destruct x as [|ty s| | | |]; cbn [anyv_eq_opt anyv_cmp_panics anyv_eqb app]; try exact IH.
+  destruct (String.eqb ty "string") eqn:T; cbn [andb app].
+  - unfold mem_str. cbn [existsb]. rewrite (String.eqb_sym k s).
+    destruct (String.eqb s k); [reflexivity|exact IH].
+  - exact IH.
+Qed.
+
+Lemma gen_ContainsAny_equiv l k :
+  gen_slices_ContainsAny l (GoLib.AStr "string" k) = Some (mem_str k (strs_of l)).
+Proof. apply containsany_loop. Qed.
+
+(* ---------- the link to the place in the model where these decisions are made ---------- *)
+
+(* VerifyCore.discover decides on the plugin header exactly through [plugin_res] *)
+Lemma discover_by_plugin_res sc :
+  discover sc
+  = match plugin_res (s_plugin_attr sc) with
+    | XErr => DErr EOther []
+    | XAbsent => if s_nonstring_crit sc then DErr EInconclusive [] else DNoPlugin
+    | XVal name => if s_nonstring_crit sc then DErr EInconclusive [] else lookup_plugin sc name
+    end.
+Proof.
+  unfold discover, plugin_res. destruct (s_plugin_attr sc) as [| | |n]; cbn [extract_res]; try reflexivity.
+  destruct (blank n); reflexivity.
+Qed.
+
+(* VerifyCore.minver_error is [minver_res] = XErr when the validity fact is the computed one *)
+Lemma minver_error_by_minver_res sc :
+  s_minver_valid sc = minver_valid_of (s_minver_attr sc) ->
+  minver_error sc = match minver_res (s_minver_attr sc) with XErr => true | _ => false end.
+Proof.
+  intros V. unfold minver_error, minver_res. rewrite V.
+  destruct (s_minver_attr sc) as [| | |v]; cbn [extract_res minver_valid_of]; try reflexivity.
+  destruct (blank v || negb (sv_valid v)); reflexivity.
+Qed.
+
+(* the scenario components read off a signer info are the model's [other_keys] / [other_crit] *)
+Lemma other_keys_of sc l : s_other sc = other_of l -> other_keys sc = map fst (other_of l).
+Proof. intros H. unfold other_keys. now rewrite H. Qed.
+
+(* transported clause "an executed plugin must list every CRITICAL attribute it was handed":
+   the model's [crit_processed] is the conjunction of the code's ContainsAny tests *)
+Lemma crit_processed_by_ContainsAny sc (l : list signature_Attribute) (processed : list anyv) :
+  s_other sc = other_of l ->
+  crit_processed sc (strs_of processed)
+  = forallb (fun kc => match gen_slices_ContainsAny processed (GoLib.AStr "string" (fst kc)) with
+                       | Some b => b | None => false end)
+            (filter snd (other_of l)).
+Proof.
+  intros H. unfold crit_processed, other_crit. rewrite H.
+  induction (filter snd (other_of l)) as [|kc r IH]; [reflexivity|].
+  cbn [map forallb]. now rewrite IH, gen_ContainsAny_equiv.
+Qed.
+
+(* ====================================================================== *)
+(* 6. ( *verifier).verifyRevocation: the native revocation validation       *)
+(* ====================================================================== *)
+
+Section VerifyRev.
+Variable C : Type.
+Variable subjs : C -> string.
+Variable ast : ptr (signature_SignerInfo C) -> Z * option GoLib.err.   (* SignerInfo.AuthenticSigningTime *)
+Variable PM : Type.
+
+(* the instant handed to the validator: the authentic signing time under the signing-authority
+   scheme, the zero time otherwise *)
+Definition rev_time (env : signature_EnvelopeContent C) : Z :=
+  if String.eqb (SignedAttributes_SigningScheme (SignerInfo_SignedAttributes C (EnvelopeContent_SignerInfo C env)))
+                "notary.x509.signingAuthority"
+  then fst (ast (PNew (EnvelopeContent_SignerInfo C env))) else time_zero.
+
+(* what the configured validator answers for this signature: the code-signing validator when there
+   is one, the (deprecated) revocation client otherwise, None when neither is configured *)
+Definition rev_answer (v : verifier_verifier C PM) (env : signature_EnvelopeContent C)
+  : option (list (ptr result_CertRevocationResult) * option GoLib.err) :=
+  let chain := SignerInfo_CertificateChain C (EnvelopeContent_SignerInfo C env) in
+  match ptr_val (verifier_revocationCodeSigningValidator C PM v) with
+  | Some f => Some (f (mk_ValidateContextOptions C chain (rev_time env)))
+  | None => match ptr_val (verifier_revocationClient C PM v) with
+            | Some g => Some (g chain (rev_time env))
+            | None => None
+            end
+  end.
+
+(* [s_rev_ok] of the scenario, read off the validator's answer *)
+Definition rev_ok_of (v : verifier_verifier C PM) (env : signature_EnvelopeContent C) : Prop :=
+  exists results, rev_answer v env = Some (results, None)
+                  /\ rev_answer_ok C results (SignerInfo_CertificateChain C (EnvelopeContent_SignerInfo C env)).
+
+Lemma gen_verifyRevocation_spec v outcome o env lvl :
+  ptr_val outcome = Some o ->
+  ptr_val (VerificationOutcome_EnvelopeContent C o) = Some env ->
+  ptr_val (VerificationOutcome_VerificationLevel C o) = Some lvl ->
+  exists r, gen_verifier_verifier_verifyRevocation C subjs ast PM v outcome = Some (PNew r)
+            /\ ValidationResult_Type r = "revocation"
+            /\ ValidationResult_Action r = enf_get lvl "revocation"
+            /\ (ValidationResult_Error r = None <-> rev_ok_of v env).
+Proof.
+  intros HO HE HL. unfold gen_verifier_verifier_verifyRevocation, rev_ok_of, rev_answer.
+  rewrite !ptr_is_nil_val, HO. cbv zeta beta. rewrite ?HE, ?HL. fold (enf_get lvl "revocation").
+  set (chain := SignerInfo_CertificateChain C (EnvelopeContent_SignerInfo C env)).
+  (* the time *)
+  assert (T : forall K : Z -> option (ptr notation_go_ValidationResult),
+            (if String.eqb (SignedAttributes_SigningScheme (SignerInfo_SignedAttributes C (EnvelopeContent_SignerInfo C env)))
+                           "notary.x509.signingAuthority"
+             then let '(t, _) := ast (PNew (EnvelopeContent_SignerInfo C env)) in K t
+             else K time_zero) = K (rev_time env)).
+  { intros K. unfold rev_time.
+    destruct (String.eqb _ "notary.x509.signingAuthority"); [|reflexivity].
+    destruct (ast (PNew (EnvelopeContent_SignerInfo C env))); reflexivity. }
+  destruct (ptr_val (verifier_revocationCodeSigningValidator C PM v)) as [f|] eqn:EF;
+    [|destruct (ptr_val (verifier_revocationClient C PM v)) as [g|] eqn:EG]; cbn [is_none andb negb].
+  3:{ eexists. split; [reflexivity|]. cbn. repeat split; try discriminate.
+      intros (rs & H & _). discriminate. }
+  all: rewrite T; clear T.
+  all: match goal with |- context [let '(a, b) := ?x in _] => destruct x as [results e] eqn:ANS end.
+  all: destruct e as [e|]; cbn [is_none negb];
+    [eexists; split; [reflexivity|]; cbn; repeat split; try discriminate; intros (rs & H & _); congruence|].
+  all: pose proof (gen_checkRevocationResults_iff C results chain) as CK;
+       pose proof (gen_revocation_passes_iff C subjs results chain) as PS.
+  all: fold chain; destruct (gen_verifier_checkRevocationResults C results chain) as [ce|] eqn:CE; cbn [is_none negb].
+  all: try (eexists; split; [reflexivity|]; cbn; repeat split; try discriminate;
+            intros (rs & H & OK); injection H as <-; apply PS in OK; destruct OK as [OK _]; discriminate).
+  all: destruct CK as [CK _]; destruct (CK eq_refl) as [L NN];
+       destruct (gen_revocationFinalResult_ok_iff C subjs results chain L NN) as (z & s & FE & ZI).
+  all: rewrite FE.
+  all: destruct (Z.eqb_spec z 1) as [Z1|Z1].
+  all: try (subst z; eexists; split; [reflexivity|]; cbn; repeat split; try reflexivity;
+            intros _; exists results; split; [reflexivity|]; apply PS; split; [reflexivity|now exists s]).
+  all: destruct (z =? 3)%Z; eexists; (split; [reflexivity|]); cbn; repeat split; try discriminate;
+       intros (rs & H & OK); injection H as <-; apply PS in OK; destruct OK as [_ (s' & OK)];
+       rewrite FE in OK; injection OK as -> _; now elim Z1.
+Qed.
+
+End VerifyRev.
